@@ -166,9 +166,13 @@ Definition run_case2 (l : list N) : list N :=
 
 Record olink := mkOL { l_a : bool; l_rid : option N; l_neg : N; l_irid : option N; l_reqd : bool; l_respd : bool;
                        l_cq : N; l_cr : N }.
+(* on_binds: (carrier, request id, negotiated name) of the outbound carriers; on_inreqs: (carrier, inbound
+   request id) of the inbound carriers that delivered a request; on_supplied: (inbound request id, len, tag)
+   of the responses the user handed in *)
 Record onode := mkON { on_hist : list out; on_spn : list (N * N * N * N); on_prev : dsum; on_nch : N;
-                       on_supplied : list (N * N * N); on_cancels : list N; on_dead : bool; on_conn0 : bool }.
-Definition on0 : onode := mkON [] [] d0 0 [] [] false false.
+                       on_supplied : list (N * N * N); on_cancels : list N; on_dead : bool; on_conn0 : bool;
+                       on_binds : list (N * N * N); on_inreqs : list (N * N) }.
+Definition on0 : onode := mkON [] [] d0 0 [] [] false false [] [].
 
 Definition set_nth {A} (i : nat) (x : A) (l : list A) : list A := firstn i l ++ [x] ++ skipn (S i) l.
 
@@ -183,11 +187,19 @@ Definition conn0_after (c : bool) (op : gop) : bool :=
   | _ => c
   end.
 
-Definition generic_ok (cf : cfg) (n : onode) (s : ostep) (o : list out) (sent : list N) : bool :=
-  match max_inb cf with Some m => d_nrd (o_dump s) + d_nrs (o_dump s) <=? m | None => true end &&
-  forallb (fun r => memN r (sent_ids (on_hist n)) || memN r sent) (term_ids o).
+(* the carrier a SubstreamOpened (outbound) of this record was handed to, with the request id that
+   pending_outbound held for the substream id (read from the bookkeeping before the stimulus) *)
+Definition bind_of (n : onode) (s : ostep) (neg : N) : list (N * N * N) :=
+  match o_target s with
+  | Some sid => match find (fun x => fst (fst x) =? sid) (d_pouts (on_prev n)) with
+                | Some x => [(on_nch n, snd x, neg)]
+                | None => []
+                end
+  | None => []
+  end.
 
-Definition upd_node (n : onode) (s : ostep) (o : list out) (es : list ev) (newch : N) (dead : bool) (conn0 : bool) : onode :=
+Definition upd_node (n : onode) (s : ostep) (o : list out) (es : list ev) (newch : N) (dead : bool) (conn0 : bool)
+           (binds : list (N * N * N)) : onode :=
   mkON (on_hist n ++ o) (on_spn n ++ sent_variants es o) (if dead then d0 else o_dump s) (on_nch n + newch)
        (on_supplied n ++ match o_target s with
                          | Some irid => flat_map (fun e => match e with
@@ -196,7 +208,17 @@ Definition upd_node (n : onode) (s : ostep) (o : list out) (es : list ev) (newch
                                                            | _ => [] end) es
                          | None => [] end)
        (on_cancels n ++ flat_map (fun e => match e with ECancel r => [r] | _ => [] end) es)
-       dead conn0.
+       dead conn0
+       (on_binds n ++ binds)
+       (on_inreqs n ++ match reqs o, o_target s with (irid, _, _) :: _, Some ch => [(ch, irid)] | _, _ => [] end).
+
+(* n' = the node after the record: every frame this record shows on the wire is the right one
+   (Glue1.frames_ok: the request variant sent for the id the carrier was handed to; the response the
+   user supplied for the request that arrived on the carrier) *)
+Definition generic_ok (cf : cfg) (n n' : onode) (s : ostep) (o : list out) (sent : list N) : bool :=
+  match max_inb cf with Some m => d_nrd (o_dump s) + d_nrs (o_dump s) <=? m | None => true end &&
+  forallb (fun r => memN r (sent_ids (on_hist n)) || memN r sent) (term_ids o) &&
+  frames_ok (on_spn n') (mkCar (on_binds n') (on_inreqs n') (on_supplied n')) o.
 
 Fixpoint steps_ok2 (cA cB : cfg) (mvs : list gmv) (tr : list ostep) (nA nB : onode) (links : list olink) : bool * onode * onode :=
   match mvs, tr with
@@ -206,7 +228,9 @@ Fixpoint steps_ok2 (cA cB : cfg) (mvs : list gmv) (tr : list ostep) (nA nB : ono
     let quietA := match o_evs sA with [] => true | _ => false end in
     let quietB := match o_evs sB with [] => true | _ => false end in
     let deadok := (if on_dead nA then quietA else true) && (if on_dead nB then quietB else true) in
-    let gen := generic_ok cA nA sA oA (sent_ids oA) && generic_ok cB nB sB oB (sent_ids oB) in
+    let gen (nA' nB' : onode) := generic_ok cA nA nA' sA oA (sent_ids oA) && generic_ok cB nB nB' sB oB (sent_ids oB) in
+    let idleA := upd_node nA sA oA [] 0 (on_dead nA) (on_conn0 nA) [] in
+    let idleB := upd_node nB sB oB [] 0 (on_dead nB) (on_conn0 nB) [] in
     match m with
     | GLoc x op =>
       let es := evs_of_gop op in
@@ -219,33 +243,35 @@ Fixpoint steps_ok2 (cA cB : cfg) (mvs : list gmv) (tr : list ostep) (nA nB : ono
          environment: not a linked carrier's business *)
       let oo := if x then oA else oB in
       let other_quiet := match reqs oo, resps oo with [], [] => true | _, _ => false end in
-      let nx' := upd_node nx sx (if x then oB else oA) es newch (on_dead nx || exits) (if on_dead nx then on_conn0 nx else conn0_after (on_conn0 nx) op) in
-      let no := if x then nA else nB in
-      let no' := upd_node no (if x then sA else sB) oo [] 0 (on_dead no) (on_conn0 no) in
-      let '(b, fa, fb) := steps_ok2 cA cB mvs' tr' (if x then no' else nx') (if x then nx' else no') links in
-      (deadok && gen && other_quiet && b, fa, fb)
+      let binds := match es with [EOpened _ _ neg] => if on_dead nx then [] else bind_of nx sx neg | _ => [] end in
+      let nx' := upd_node nx sx (if x then oB else oA) es newch (on_dead nx || exits)
+                          (if on_dead nx then on_conn0 nx else conn0_after (on_conn0 nx) op) binds in
+      let nA' := if x then idleA else nx' in
+      let nB' := if x then nx' else idleB in
+      let '(b, fa, fb) := steps_ok2 cA cB mvs' tr' nA' nB' links in
+      (deadok && gen nA' nB' && other_quiet && b, fa, fb)
     | GOpen a k gq gr neg =>
       let sq := if a then sB else sA in let sr := if a then sA else sB in
       let nq := if a then nB else nA in let nr := if a then nA else nB in
       let opened := match o_target sq with Some _ => negb (on_dead nq) | None => false end in
       let inopened := match o_target sr with Some _ => negb (on_dead nr) | None => false end in
-      let rid := match o_target sq with
-                 | Some sid => match find (fun x => fst (fst x) =? sid) (d_pouts (on_prev nq)) with
-                               | Some x => Some (snd x) | None => None end
-                 | None => None end in
+      let binds := if opened then bind_of nq sq neg else [] in
+      let rid := match binds with (_, r, _) :: _ => Some r | [] => None end in
       let links' := if opened && inopened then links ++ [mkOL a rid neg None false false (on_nch nq) (on_nch nr)] else links in
-      let nq' := upd_node nq sq (o_outs sq) [] (if opened then 1 else 0) (on_dead nq) (on_conn0 nq) in
-      let nr' := upd_node nr sr (o_outs sr) [] (if inopened then 1 else 0) (on_dead nr) (on_conn0 nr) in
+      let nq' := upd_node nq sq (o_outs sq) [] (if opened then 1 else 0) (on_dead nq) (on_conn0 nq) binds in
+      let nr' := upd_node nr sr (o_outs sr) [] (if inopened then 1 else 0) (on_dead nr) (on_conn0 nr) [] in
       let ok := (* the inbound side appears only together with the outbound side *)
                 (if inopened then opened else true) &&
-                (* no terminal event can come out of the responder's side of an open *)
-                match reqs (o_outs sr), resps (o_outs sr), resps (o_outs sq) with [], [], [] => true | _, _, _ => false end in
-      let '(b, fa, fb) := steps_ok2 cA cB mvs' tr' (if a then nr' else nq') (if a then nq' else nr') links' in
-      (deadok && gen && ok && b, fa, fb)
+                (* nothing is handed to either user by an open *)
+                match reqs (o_outs sr), resps (o_outs sr), resps (o_outs sq), reqs (o_outs sq) with [], [], [], [] => true | _, _, _, _ => false end in
+      let nA' := if a then nr' else nq' in
+      let nB' := if a then nq' else nr' in
+      let '(b, fa, fb) := steps_ok2 cA cB mvs' tr' nA' nB' links' in
+      (deadok && gen nA' nB' && ok && b, fa, fb)
     | GReq i cut sc =>
       match links with
-      | [] => let '(b, fa, fb) := steps_ok2 cA cB mvs' tr' (upd_node nA sA oA [] 0 (on_dead nA) (on_conn0 nA)) (upd_node nB sB oB [] 0 (on_dead nB) (on_conn0 nB)) links in
-              (deadok && gen && quietA && quietB && b, fa, fb)
+      | [] => let '(b, fa, fb) := steps_ok2 cA cB mvs' tr' idleA idleB links in
+              (deadok && gen idleA idleB && quietA && quietB && b, fa, fb)
       | _ =>
         let j := N.to_nat (i mod N.of_nat (length links)) in
         match nth_error links j with
@@ -274,15 +300,14 @@ Fixpoint steps_ok2 (cA cB : cfg) (mvs : list gmv) (tr : list ostep) (nA nB : ono
           let lk' := mkOL (l_a lk) (l_rid lk) (l_neg lk)
                           (match reqs (o_outs sr) with (irid, _, _) :: _ => Some irid | [] => l_irid lk end)
                           true (l_respd lk) (l_cq lk) (l_cr lk) in
-          let '(b, fa, fb) := steps_ok2 cA cB mvs' tr' (upd_node nA sA oA [] 0 (on_dead nA) (on_conn0 nA)) (upd_node nB sB oB [] 0 (on_dead nB) (on_conn0 nB))
-                                        (set_nth j lk' links) in
-          (deadok && gen && ok && b, fa, fb)
+          let '(b, fa, fb) := steps_ok2 cA cB mvs' tr' idleA idleB (set_nth j lk' links) in
+          (deadok && gen idleA idleB && ok && b, fa, fb)
         end
       end
     | GResp i cut sc =>
       match links with
-      | [] => let '(b, fa, fb) := steps_ok2 cA cB mvs' tr' (upd_node nA sA oA [] 0 (on_dead nA) (on_conn0 nA)) (upd_node nB sB oB [] 0 (on_dead nB) (on_conn0 nB)) links in
-              (deadok && gen && quietA && quietB && b, fa, fb)
+      | [] => let '(b, fa, fb) := steps_ok2 cA cB mvs' tr' idleA idleB links in
+              (deadok && gen idleA idleB && quietA && quietB && b, fa, fb)
       | _ =>
         let j := N.to_nat (i mod N.of_nat (length links)) in
         match nth_error links j with
@@ -312,9 +337,8 @@ Fixpoint steps_ok2 (cA cB : cfg) (mvs : list gmv) (tr : list ostep) (nA nB : ono
             match reqs (o_outs sq) with [] => true | _ => false end in
           let touched := match o_evs sq with [] => false | _ => true end in
           let lk' := mkOL (l_a lk) (l_rid lk) (l_neg lk) (l_irid lk) (l_reqd lk) (l_respd lk || touched) (l_cq lk) (l_cr lk) in
-          let '(b, fa, fb) := steps_ok2 cA cB mvs' tr' (upd_node nA sA oA [] 0 (on_dead nA) (on_conn0 nA)) (upd_node nB sB oB [] 0 (on_dead nB) (on_conn0 nB))
-                                        (set_nth j lk' links) in
-          (deadok && gen && ok && b, fa, fb)
+          let '(b, fa, fb) := steps_ok2 cA cB mvs' tr' idleA idleB (set_nth j lk' links) in
+          (deadok && gen idleA idleB && ok && b, fa, fb)
         end
       end
     end
